@@ -295,14 +295,14 @@ theorem execLine_r2o {c : SecCtx} {e : Env} {l : Line} {r r' : RefState} {k o : 
   split at hex <;> simp_all [ioKind]
 
 theorem execLine_movin {c : SecCtx} {e : Env} {l : Line} {r r' : RefState} {k i : Nat} (hop : l.op = "mov")
-    (hargs : l.args = [.reg k, .inp i]) (hmd : c.mode = some .async) (hex : execLine c e l r = some r') :
+    (hargs : l.args = [.reg k, .inp i]) (hmd : lineMode c.mode l = some .async) (hex : execLine c e l r = some r') :
     r' = execIo e (skip c.lines (r.pos + 1)) r (.inAsync, k, i) := by
   unfold execLine at hex
   simp only [hop, hargs] at hex
   split at hex <;> simp_all [ioKind]
 
 theorem execLine_movout {c : SecCtx} {e : Env} {l : Line} {r r' : RefState} {k o : Nat} (hop : l.op = "mov")
-    (hargs : l.args = [.out o, .reg k]) (hmd : c.mode = some .async) (hex : execLine c e l r = some r') :
+    (hargs : l.args = [.out o, .reg k]) (hmd : lineMode c.mode l = some .async) (hex : execLine c e l r = some r') :
     r' = execIo e (skip c.lines (r.pos + 1)) r (.outAsync, k, o) := by
   unfold execLine at hex
   simp only [hop, hargs] at hex
@@ -323,14 +323,14 @@ theorem execLine_r2owa {c : SecCtx} {e : Env} {l : Line} {r r' : RefState} {k o 
   split at hex <;> simp_all [ioKind]
 
 theorem execLine_movin_sync {c : SecCtx} {e : Env} {l : Line} {r r' : RefState} {k i : Nat} (hop : l.op = "mov")
-    (hargs : l.args = [.reg k, .inp i]) (hmd : c.mode = some .sync) (hex : execLine c e l r = some r') :
+    (hargs : l.args = [.reg k, .inp i]) (hmd : lineMode c.mode l = some .sync) (hex : execLine c e l r = some r') :
     r' = execIo e (skip c.lines (r.pos + 1)) r (.inSync, k, i) := by
   unfold execLine at hex
   simp only [hop, hargs] at hex
   split at hex <;> simp_all [ioKind]
 
 theorem execLine_movout_sync {c : SecCtx} {e : Env} {l : Line} {r r' : RefState} {k o : Nat} (hop : l.op = "mov")
-    (hargs : l.args = [.out o, .reg k]) (hmd : c.mode = some .sync) (hex : execLine c e l r = some r') :
+    (hargs : l.args = [.out o, .reg k]) (hmd : lineMode c.mode l = some .sync) (hex : execLine c e l r = some r') :
     r' = execIo e (skip c.lines (r.pos + 1)) r (.outSync, k, o) := by
   unfold execLine at hex
   simp only [hop, hargs] at hex
@@ -588,7 +588,7 @@ theorem exec_matches {a : Arch} {c : SecCtx} {e : Env} {A : Nat → Nat} {plen :
     simp only [Option.some.injEq, Prod.mk.injEq] at hm; obtain ⟨rfl, rfl⟩ := hm
     exact caseR2owa k o (by simpa [resolveArg] using hasm) (execLine_r2owa hop hargs hex)
   case h_21 k i hop hargs =>   -- mov reg, input
-    cases hmd : c.mode with
+    cases hmd : lineMode c.mode l with
     | none => simp [hmd] at hm
     | some md =>
       cases md with
@@ -599,7 +599,7 @@ theorem exec_matches {a : Arch} {c : SecCtx} {e : Env} {A : Nat → Nat} {plen :
         simp only [hmd, Option.some.injEq, Prod.mk.injEq] at hm; obtain ⟨rfl, rfl⟩ := hm
         exact caseI2rw k i (by simpa [resolveArg] using hasm) (execLine_movin_sync hop hargs hmd hex)
   case h_22 o k hop hargs =>   -- mov output, reg
-    cases hmd : c.mode with
+    cases hmd : lineMode c.mode l with
     | none => simp [hmd] at hm
     | some md =>
       cases md with
@@ -1078,7 +1078,7 @@ theorem filter_noentry_self : ∀ (ls : List Line), (ls.filter isEntry).length =
 theorem dropEntry_pointwise : ∀ {ls ls' : List Line}, dropEntry ls = some ls' → (ls.filter isEntry).length ≤ 1 →
     ls'.length = (ls.filter fun l => !isEntry l).length ∧
     ∀ (i : Nat) (l' : Line), ls'[i]? = some l' → ∃ l : Line, (ls.filter fun l => !isEntry l)[i]? = some l ∧
-      l'.op = l.op ∧ l'.args = l.args ∧
+      l'.op = l.op ∧ (l'.args = l.args ∧ l'.iomode = l.iomode) ∧
       ∀ t, t ∈ l'.labels → t ∈ l.labels ∨ ∃ (q : Nat) (e : Line), ls[q]? = some e ∧ isEntry e = true ∧ t ∈ e.labels ∧ addr ls q = i
   | [], ls', h, _ => by
     simp [dropEntry] at h; subst h
@@ -1095,7 +1095,7 @@ theorem dropEntry_pointwise : ∀ {ls ls' : List Line}, dropEntry ls = some ls' 
       rw [hF]
       by_cases hl : x.labels.isEmpty = true
       · simp only [hl, if_true, Option.some.injEq] at h; subst h
-        exact ⟨rfl, fun i l' hl' => ⟨l', hl', rfl, rfl, fun t ht => Or.inl ht⟩⟩
+        exact ⟨rfl, fun i l' hl' => ⟨l', hl', rfl, ⟨rfl, rfl⟩, fun t ht => Or.inl ht⟩⟩
       · simp only [hl] at h
         cases rest with
         | nil => simp at h
@@ -1106,14 +1106,14 @@ theorem dropEntry_pointwise : ∀ {ls ls' : List Line}, dropEntry ls = some ls' 
           cases i with
           | zero =>
             simp only [List.getElem?_cons_zero, Option.some.injEq] at hl'; subst hl'
-            refine ⟨n, by simp, rfl, rfl, ?_⟩
+            refine ⟨n, by simp, rfl, ⟨rfl, rfl⟩, ?_⟩
             intro t ht
             rcases List.mem_append.mp ht with ht | ht
             · exact Or.inl ht
             · exact Or.inr ⟨0, x, by simp, hx, ht, by simp [addr]⟩
           | succ i =>
             simp only [List.getElem?_cons_succ] at hl'
-            exact ⟨l', by simpa using hl', rfl, rfl, fun t ht => Or.inl ht⟩
+            exact ⟨l', by simpa using hl', rfl, ⟨rfl, rfl⟩, fun t ht => Or.inl ht⟩
     · have hx' : isEntry x = false := by simpa using hx
       simp only [hx', Bool.false_eq_true, if_false] at h
       cases hd : dropEntry rest with
@@ -1131,7 +1131,7 @@ theorem dropEntry_pointwise : ∀ {ls ls' : List Line}, dropEntry ls = some ls' 
         cases i with
         | zero =>
           simp only [List.getElem?_cons_zero, Option.some.injEq] at hl'; subst hl'
-          exact ⟨x, by simp, rfl, rfl, fun t ht => Or.inl ht⟩
+          exact ⟨x, by simp, rfl, ⟨rfl, rfl⟩, fun t ht => Or.inl ht⟩
         | succ i =>
           simp only [List.getElem?_cons_succ] at hl'
           obtain ⟨l, h1, h2, h3, h4⟩ := hpt i l' hl'
@@ -1145,9 +1145,9 @@ theorem dropEntry_pointwise : ∀ {ls ls' : List Line}, dropEntry ls = some ls' 
             omega
 
 
-theorem matchLine_congr (mode : Option IoMode) {l1 l2 : Line} (h1 : l1.op = l2.op) (h2 : l1.args = l2.args) :
-    matchLine mode l1 = matchLine mode l2 := by
-  unfold matchLine; rw [h1, h2]
+theorem matchLine_congr (mode : Option IoMode) {l1 l2 : Line} (h1 : l1.op = l2.op) (h2 : l1.args = l2.args)
+    (h3 : l1.iomode = l2.iomode) : matchLine mode l1 = matchLine mode l2 := by
+  unfold matchLine lineMode; rw [h1, h2, h3]
 
 /-- unchanged pipeline: the directive is filtered out, nothing else moves -/
 theorem layout_unfixed {c : SecCtx} {ls' : List Line} {rs : List RLine} (hre : removeEntry c.lines = .ok ls')
@@ -1197,10 +1197,10 @@ theorem layout_dropped {c : SecCtx} {ls' : List Line} {rs : List RLine} (hdrop :
   · intro p l hl hne
     have hF := filter_getElem?_addr c.lines p l hl hne
     have hlt : addr c.lines p < ls'.length := by rw [hlen]; exact (List.getElem?_eq_some_iff.mp hF).1
-    obtain ⟨l2, hF2, hop, hargs, _⟩ := hpt _ _ (List.getElem?_eq_getElem hlt)
+    obtain ⟨l2, hF2, hop, ⟨hargs, hio⟩, _⟩ := hpt _ _ (List.getElem?_eq_getElem hlt)
     rw [hF] at hF2; cases hF2
     obtain ⟨r0, hr0, _, hm⟩ := matchLines_get hml _ _ (List.getElem?_eq_getElem hlt)
-    exact ⟨r0, by simpa using hr0, by rw [← matchLine_congr c.mode hop hargs]; exact hm⟩
+    exact ⟨r0, by simpa using hr0, by rw [← matchLine_congr c.mode hop hargs hio]; exact hm⟩
   · intro t p v hp hv
     have hlt := lookup_lt hv
     obtain ⟨r0, hr0, ht0⟩ := mem_labelTable.mp (lookup_mem hv)
